@@ -7,6 +7,7 @@ The NO (Node Order) tags order the nodes in a bubble (in a lexicographic order).
 
 import sys
 import os
+import csv
 import logging
 import time
 from collections import defaultdict
@@ -135,6 +136,8 @@ def run_order_gfa(
             csv_file = outdir + os.sep + gfa_filename.split(os.sep)[-1][:-4] + "-" + chromosome + ".csv"
             out_csv.append(csv_file)
             f_colors = open(csv_file, "w")
+            # names and SN values may contain commas or quotes: quote such fields instead of writing a ragged row
+            colors_writer = csv.writer(f_colors, lineterminator="\n")
             f_colors.write("Name,Color,SN,SO,BO,NO\n")
             total_bubbles += bubble_count
             for node_name in sorted(component_nodes):
@@ -159,9 +162,7 @@ def run_order_gfa(
                     so_tag = node.tags["SO"][1]
                 else:
                     so_tag = "NA"
-                f_colors.write(
-                    "{},{},{},{},{},{}\n".format(node_name, color, sn_tag, so_tag, bo_tag, no_tag)
-                )
+                colors_writer.writerow([node_name, color, sn_tag, so_tag, bo_tag, no_tag])
 
             graph.write_gfa(
                 set_of_nodes=component_nodes,
